@@ -20,15 +20,29 @@ pub(super) struct MulAddFusion<F> {
     use_counts: HashMap<WitnessId, usize>,
     defs: HashMap<WitnessId, IndexedDef<F>>,
     backwards_computed: HashMap<WitnessId, usize>,
+    /// Witnesses set from outside the op list (private inputs): available before any op runs.
+    inputs: hashbrown::HashSet<WitnessId>,
 }
 
 impl<F: Field> MulAddFusion<F> {
     /// Scans `ops` to build use-counts, definitions, and backwards-op tracking.
+    #[cfg(test)]
     pub(super) fn new(ops: &[Op<F>]) -> Self {
+        Self::new_with_inputs(ops, core::iter::empty())
+    }
+
+    /// Like [`Self::new`], with the witnesses that are set from outside the op list. An add/mul
+    /// whose `out` is one of them is a backwards op (it solves for `b`), exactly as if `out`
+    /// had been defined by an earlier op.
+    pub(super) fn new_with_inputs(
+        ops: &[Op<F>],
+        inputs: impl IntoIterator<Item = WitnessId>,
+    ) -> Self {
         let mut fusion = Self {
             use_counts: HashMap::new(),
             defs: HashMap::with_capacity(ops.len()),
             backwards_computed: HashMap::new(),
+            inputs: inputs.into_iter().collect(),
         };
         fusion.scan_use_counts(ops);
         fusion.scan_defs(ops);
@@ -55,7 +69,7 @@ impl<F: Field> MulAddFusion<F> {
     }
 
     fn is_backwards(&self, idx: usize, out: &WitnessId) -> bool {
-        self.def_idx(out).is_some_and(|i| i < idx)
+        self.inputs.contains(out) || self.def_idx(out).is_some_and(|i| i < idx)
     }
 
     /// Inserts a def unless the witness is already a Const (connect aliasing).
